@@ -15,14 +15,17 @@ IMPORTS = "From QE Require Import Base.LinAlg Base.Gauss C06.Model."
 FINISH = dict(level="proof", technique_note=(
     "Coq theorems (coq/C06/Props.v) about the executable model coq/C06/Model.v (generic over Num; NumQ proved, NumF run); "
     "model tied to /repo by evaluating it with vm_compute on the inputs of every implementation call (status exact, values 1e-8); "
-    "independent mpmath-50-digit oracle on the implementation's output (residual, symmetry, PSD, closed-loop radius, method agreement). "
+    "independent mpmath-50-digit oracle on the implementation's output (residual, symmetry, PSD, closed-loop radius, method agreement; tolerances 1e-12 / 1e-10 / 1e-10 / <1 / 1e-8). "
     "non-trivial = solver returned a matrix for a non-zero A (Lyapunov) / a system with ns>=1 whose doubling loop ran >= 2 iterations (Riccati)"))
 
 mp.mp.dps = 50
 TOL_VAL = 1e-8          # correspondence tolerance (stated in DESIGN section 7, C06)
-TOL_RES = 1e-8          # oracle: residual relative to the scale of the terms of the equation
-TOL_SYM = 1e-9
-TOL_AGREE = 1e-7        # doubling vs qz / bartels-stewart, relative to 1 + max|X|
+# oracle tolerances, fixed after a calibration sweep of ~1900 generated systems on the pinned tree (worst seen:
+# Lyapunov residual 4.4e-16, Riccati residual 1.2e-13 (qz) / 1.8e-14 (doubling), asymmetry 9.7e-15, agreement 2.1e-12)
+TOL_RES_LYAP = 1e-12    # residual relative to the scale of the terms of the equation
+TOL_RES = 1e-10         # same, Riccati
+TOL_SYM = 1e-10
+TOL_AGREE = 1e-8        # doubling vs qz / bartels-stewart, relative to 1 + max|X|
 
 
 # ------------------------------------------------------------------ helpers
@@ -301,12 +304,12 @@ def run(ctx):
                 continue
             r = lyap_oracle(Af, Bf, X)
             worst["lyap_res"] = max(worst["lyap_res"], r)
-            if not r <= TOL_RES:
-                ctx.fail("lyap_residual", "doubling: A X A' - X + B is not 0 up to rounding", inp, np.asarray(X).tolist(), "relative residual %.3g > %g" % (r, TOL_RES))
+            if not r <= TOL_RES_LYAP:
+                ctx.fail("lyap_residual", "doubling: A X A' - X + B is not 0 up to rounding", inp, np.asarray(X).tolist(), "relative residual %.3g > %g" % (r, TOL_RES_LYAP))
             Xb = me.solve_discrete_lyapunov(np.array(Af), np.array(Bf), method="bartels-stewart")
             rb = lyap_oracle(Af, Bf, Xb)
             worst["lyap_res"] = max(worst["lyap_res"], rb)
-            if not rb <= TOL_RES:
+            if not rb <= TOL_RES_LYAP:
                 ctx.fail("lyap_residual", "bartels-stewart: A X A' - X + B is not 0 up to rounding", dict(inp, method="bartels-stewart"), np.asarray(Xb).tolist(), "relative residual %.3g" % rb)
             ag = float(np.max(np.abs(np.atleast_2d(X) - Xb)) / (1 + np.max(np.abs(Xb))))
             worst["lyap_agree"] = max(worst["lyap_agree"], ag)
@@ -386,7 +389,7 @@ def run(ctx):
         X = qe.m_quadratic_sum(npf(A), npf(B))
         r = lyap_oracle(fl(A), fl(B), X)
         ctx.case(("mqs", str(A), str(B)), nontrivial=True)
-        if not r <= TOL_RES:
+        if not r <= TOL_RES_LYAP:
             ctx.fail("lyap_residual", "m_quadratic_sum: A X A' - X + B is not 0", {"fn": "m_quadratic_sum", "A": A, "B": B}, X.tolist(), "relative residual %.3g" % r)
     # var_quadratic_sum: q0 = sum_t beta^t E[x_t' H x_t] (mpmath truncated series, stable sqrt(beta) A)
     for t in range(10 if thorough else 5):
